@@ -214,25 +214,24 @@ Definition vinit : vstate := mkVS [] None [] [].
 
 Definition has_validator (r : arules) : bool := ar_nodup r || ar_lex r || ar_one8 r || ar_one32 r.
 
-(* [nilempty]: on the encoder side an empty element is a nil []byte, which the lexical validators take for
-   "no previous element" (prev == nil); on the decoder side elements are sub-slices of the input (non-nil). *)
-Definition mkprev (nilempty : bool) (e : bytes) : option bytes :=
-  match e with [] => if nilempty then None else Some e | _ => Some e end.
+(* [vs_prev = None] is "no previous element yet" (the hasPrev flag of LexicalOrderWithoutDupsValidator after a52b77b;
+   before, an empty element - a nil []byte on the encoder side - was taken for "no previous element").
+   LexicalOrderValidator still tests prev == nil, which is unobservable: a nil/empty prev compares <= everything. *)
 
-Definition validate (r : arules) (nilempty : bool) (st : vstate) (e : bytes) : res vstate :=
+Definition validate (r : arules) (st : vstate) (e : bytes) : res vstate :=
   let* st := (if ar_nodup r && negb (ar_lex r)
              then if existsb (beqb e) (vs_seen st) then Err EDup
                   else Ok (mkVS (e :: vs_seen st) (vs_prev st) (vs_c8 st) (vs_c32 st))
              else Ok st) in
   let* st := (if ar_lex r
              then match vs_prev st with
-                  | None => Ok (mkVS (vs_seen st) (mkprev nilempty e) (vs_c8 st) (vs_c32 st))
+                  | None => Ok (mkVS (vs_seen st) (Some e) (vs_c8 st) (vs_c32 st))
                   | Some p =>
                       match bcmp p e with
                       | Gt => Err EOrder
                       | Eq => if ar_nodup r then Err EDup
-                              else Ok (mkVS (vs_seen st) (mkprev nilempty e) (vs_c8 st) (vs_c32 st))
-                      | Lt => Ok (mkVS (vs_seen st) (mkprev nilempty e) (vs_c8 st) (vs_c32 st))
+                              else Ok (mkVS (vs_seen st) (Some e) (vs_c8 st) (vs_c32 st))
+                      | Lt => Ok (mkVS (vs_seen st) (Some e) (vs_c8 st) (vs_c32 st))
                       end
                   end
              else Ok st) in
@@ -250,10 +249,10 @@ Definition validate (r : arules) (nilempty : bool) (st : vstate) (e : bytes) : r
             else Ok (mkVS (vs_seen st) (vs_prev st) (vs_c8 st) (c :: vs_c32 st))
   else Ok st.
 
-Fixpoint validate_all (r : arules) (nilempty : bool) (st : vstate) (data : list bytes) : res unit :=
+Fixpoint validate_all (r : arules) (st : vstate) (data : list bytes) : res unit :=
   match data with
   | [] => Ok tt
-  | e :: rest => let* st' := validate r nilempty st e in validate_all r nilempty st' rest
+  | e :: rest => let* st' := validate r st e in validate_all r st' rest
   end.
 
 (* encodeSliceOfBytes -> Serializer.WriteSliceOfByteSlices *)
@@ -261,7 +260,7 @@ Definition enc_seq (val : bool) (l : lpt) (r : arules) (data : list bytes) : res
   let* _u := (if val then check_bounds (ar_min r) (ar_max r) (N.of_nat (length data)) else Ok tt) in
   let* pre := write_len l (N.of_nat (length data)) in
   let data' := if ar_autosort r && ar_lex r then sortb data else data in
-  let* _u := (if val then validate_all r true vinit data' else Ok tt) in
+  let* _u := (if val then validate_all r vinit data' else Ok tt) in
   Ok (pre ++ concat data').
 
 (* the loop of Deserializer.ReadSequenceOfObjects; [item acc b] decodes one item from b (whole remaining input)
@@ -275,7 +274,7 @@ Section Loop.
         let* (acc', n) := item acc b in
         if (length b <? n)%nat then Panic      (* srcBefore[:bytesRead] / d.src[d.offset:] out of range *)
         else
-          let* st' := (if val && has_validator r then validate r false st (firstn n b) else Ok st) in
+          let* st' := (if val && has_validator r then validate r st (firstn n b) else Ok st) in
           let* (a, m) := seq_loop k st' acc' (skipn n b) in
           Ok (a, (n + m)%nat)
     end.
